@@ -15,8 +15,14 @@ Oracle: step 3 must raise (any exception type).  Returning any object is a viola
 came back (type, dims, shape, number of finite values).  Nothing else is demanded: the calls the property declares
 valid (alpha > 1, additional Dataset variables, additional score dimensions) are not in the fault alphabet; together
 with n_modes = rank and a subset of the model's modes they are exercised only as *controls* that must NOT be refused
-(``entry`` ending in ``!valid``), so that an over-eager validation patch is caught as well.  A pure permutation of
-coordinate labels and bool n_modes are neither faults nor controls.
+(``entry`` ending in ``!valid``), so that an over-eager validation patch is caught as well.  bool n_modes is neither
+a fault nor a control.
+
+One fault has a two-sided oracle: transform-time data whose feature coordinate carries the FITTED labels in another order
+(``permute_feature_coord``: reversed, rolled, or relabelled).  The statement names "re-ordered with different values" as the
+fault; the same label set re-ordered is the same labelled data.  So the call must either raise, or return exactly what the
+same fitted object returns for that data laid out in the fitted order (label-keyed comparison of two real runs).  An
+answer computed by position (``reordered_coord_misread``) is a violation.
 """
 
 from __future__ import annotations
@@ -42,7 +48,8 @@ RULE = (
     "x configuration {plain, check_nans=False; thorough: + standardize&coslat, PCA pre-reduction} x entry point {ctor+fit, fit, transform (X / Y), predict, inverse_transform, rotator ctor+fit, "
     "rotator.fit; every entry point with a `normalized` switch also with normalized=True} x every applicable fault: wrong type (ndarray, list of ndarrays, None); sample dim unknown / partly unknown / empty / of wrong type / "
     "equal to all dims (no feature dim left); each dimension of each item dropped (isel with and without scalar coordinate, mean), renamed, one added; "
-    "each feature coordinate shifted (disjoint, overlapping) and replaced by re-ordered different values; Dataset variable dropped / renamed / stripped "
+    "each feature coordinate shifted (disjoint, overlapping), replaced by re-ordered different values, and given the fitted labels in another order "
+    "(reversed, rolled, relabelled; also on a DataArray with ONE feature dim); Dataset variable dropped / renamed / stripped "
     "of one dim; list length -1 / +1; n_modes in {0, -1, rank+1, 'three', 2.5, None}; alpha < 0 (scalar and one of a pair); unknown solver; score arrays "
     "with unknown mode labels, without a mode dimension, of wrong type; cross-set / multi-view fields with different sample counts. "
     "A case is non-trivial when the un-mutated call returned a non-empty finite result and the mutated call was executed and refused"
@@ -52,7 +59,9 @@ ASSUMPTIONS = [
     "'more modes than the rank' is read with the rank the decomposer uses, min(shape) of the matrix it decomposes; n_modes = that + 1",
     "for rotators only non-positive / non-numeric n_modes is a fault; n_modes above the model's number of modes is not (the statement ties that clause to the rank of data)",
     "a Dataset with additional variables, score arrays with additional dimensions or a subset of the model's modes, alpha > 1 and n_modes = rank are valid calls: "
-    "they are run as controls that must not raise; a pure permutation of coordinate labels and bool n_modes are neither faults nor controls",
+    "they are run as controls that must not raise; bool n_modes is neither a fault nor a control",
+    "a feature coordinate carrying the fitted labels in another order may be refused or answered; if answered, the answer must equal (1e-9 relative, label-keyed) "
+    "the answer of the same fitted object for the label-aligned data",
     "inverse_transform(X=None, Y=scores) of a cross-set model is a valid call (one field is optional), so None is a type fault there only for single-set models",
     "MCARotator.transform is given new values on sample labels seen in training: with unseen labels its un-mutated call returns only NaN (a C05 matter) and nothing could be decided",
     "the quick tier keeps every fault kind on every entry point and container but thins variants (how a dim is dropped, which list item) for the costly classes "
@@ -95,6 +104,10 @@ LAYOUT = {
         dict(item=0, var=None, name="y0", dims=("lat", "lon"), coords={"lat": [-30.0, 30.0], "lon": [10.0, 50.0]}),
         dict(item=1, var=None, name="y1", dims=("lon",), coords={"lon": [5.0, 25.0]}),
     ],
+    # a DataArray with ONE feature dimension (enumerated for the permutation fault only: there the stacked feature index keeps
+    # the user's labels, with two or more feature dims / a Dataset it becomes positional)
+    ("X", "da1"): [dict(item=None, var=None, name="data1", dims=("lat",), coords={"lat": [-50.0, -10.0, 20.0, 40.0]})],
+    ("Y", "da1"): [dict(item=None, var=None, name="y1d", dims=("lat",), coords={"lat": [-30.0, 0.0, 30.0]})],
     ("Z", "da"): [dict(item=None, var=None, name="z", dims=("lev",), coords={"lev": [1000.0, 850.0, 500.0]})],
 }
 
@@ -124,7 +137,7 @@ def build_field(role, cont, n, seed, new=False, seen_labels=False):
         )
         c0 += nc
         out.append(da)
-    if cont == "da":
+    if cont in ("da", "da1"):
         return out[0]
     if cont == "ds":
         return xr.Dataset({da.name: da for da in out})
@@ -169,6 +182,12 @@ def data_faults(role, cont):
                 F.append(dict(fault="shift_feature_coord", dim=d, how="disjoint", item=tg["item"]))
                 F.append(dict(fault="shift_feature_coord", dim=d, how="overlap", item=tg["item"]))
                 F.append(dict(fault="reorder_feature_coord_new_values", dim=d, item=tg["item"]))
+                # the same label set in another order: the data either travel with their labels (reverse, roll) or not (relabel)
+                size = max(len(pc["coords"][d]) for pc in pieces if d in pc["dims"] and (tg["item"] is None or pc["item"] == tg["item"]))
+                for how in ("reverse", "roll", "relabel_reverse"):
+                    if how == "roll" and size < 3:
+                        continue  # a roll of two labels is their reversal
+                    F.append(dict(fault="permute_feature_coord", dim=d, how=how, item=tg["item"]))
         F.append(dict(fault="add_dim", how="len2", item=tg["item"]))
         F.append(dict(fault="add_dim", how="len1", item=tg["item"]))
     if cont == "ds":
@@ -186,6 +205,10 @@ def data_faults(role, cont):
     else:
         F.append(dict(fault="list_length", how="plus"))
     return F
+
+
+def permutation_faults(role, cont):
+    return [f for f in data_faults(role, cont) if f["fault"] == "permute_feature_coord"]
 
 
 def data_controls(role, cont):
@@ -332,6 +355,19 @@ def cases(tier, seed):
                             add(model, cont, conf, "inverse_transform", f, field="X")
                         for f in SCORE_CONTROLS:
                             add(model, cont, conf, "inverse_transform!valid", f, field="X")
+    # ---------------- DataArray with ONE feature dimension: permutation fault on every data-argument entry point
+    for model in models:
+        base = ROT.get(model, model)
+        if base in CROSS:
+            for f in permutation_faults("X", "da1"):
+                add(model, "da1", "plain", "transform_X", f, field="X")
+                if model not in ROT:
+                    add(model, "da1", "plain", "predict", f, field="X")
+            for f in permutation_faults("Y", "da1"):
+                add(model, "da1", "plain", "transform_Y", f, field="Y", ycont="da1")
+        else:
+            for f in permutation_faults("X", "da1"):
+                add(model, "da1", "plain", "transform", f, field="X")
     # ---------------- the `normalized` switch: every entry point that has one is enumerated a second time with
     # normalized=True (scores are multiplied / divided by the stored norms BEFORE the algorithm's own label lookup,
     # a different code path for mode-label and mode-dimension faults); entries without the switch are not repeated
@@ -364,29 +400,29 @@ def _in_quick(c):
         return c["container"] == "da" and (c["fault"], c.get("how")) in _QUICK_NORMALIZED_DATA and c.get("dim") in (None, "lat", "time")
     heavy = c["model"] in ("MCARotator", "EOFRotator", "SparsePCA", "POP", "MCA")  # MCA = CPCCA(alpha=1): same code paths
     if heavy:
-        if c.get("how") in ("isel_keep", "len1", "overlap", "list_of_ndarrays", "empty_list", "empty_string", "partly_unknown", "all_beyond"):
+        if c.get("how") in ("isel_keep", "len1", "overlap", "list_of_ndarrays", "empty_list", "empty_string", "partly_unknown", "all_beyond", "roll", "relabel_reverse"):
             return False
         if c["fault"] == "unknown_mode_label" and c.get("how") == "string":
             return False
         if c["fault"] in ("rename_variable",) or (c["fault"] == "drop_variable" and c.get("var") == "a"):
             return False
-        if c["container"] == "list" and c.get("item") == 0 and c["fault"] not in ("drop_feature_dim",):
+        if c["container"] == "list" and c.get("item") == 0 and c["fault"] not in ("drop_feature_dim", "permute_feature_coord"):
             return False
-    if c["model"] == "MCARotator" and c["container"] != "da" and c["entry"] not in ("transform_X", "ctor_fit"):
+    if c["model"] == "MCARotator" and c["container"] not in ("da", "da1") and c["entry"] not in ("transform_X", "ctor_fit"):
         return False
     if c["model"] in ROT and c["entry"].startswith("transform") and c["container"] != "da" and c["fault"] not in (
-        "drop_feature_dim", "drop_feature_dim_of_variable", "drop_variable", "list_length", "wrong_type"
+        "drop_feature_dim", "drop_feature_dim_of_variable", "drop_variable", "list_length", "wrong_type", "permute_feature_coord"
     ):
         return False  # a rotator transforms through the model's own preprocessor object
-    if c["model"] == "CCA" and c["entry"] == "transform" and c["container"] != "da":
+    if c["model"] == "CCA" and c["entry"] == "transform" and c["container"] not in ("da", "da1"):
         return False
     if c["model"] == "MCA" and c["container"] != "da" and c["entry"] not in ("ctor_fit", "transform_X"):
         return False
     if c["model"] == "EOFRotator" and c["container"] != "da" and c["entry"].startswith("inverse_transform"):
         return False
-    if c["model"] in ("MCA", "CPCCA") and c["entry"] == "predict" and c["container"] != "da":
+    if c["model"] in ("MCA", "CPCCA") and c["entry"] == "predict" and c["container"] not in ("da", "da1"):
         return False  # predict preprocesses X exactly as transform(X=...) does
-    if c["entry"] == "transform_Y" and c["container"] != "da":
+    if c["entry"] == "transform_Y" and c["container"] not in ("da", "da1"):
         return False  # in the quick tier Y is a DataArray whatever the container of X: the X container does not reach this path
     return True
 
@@ -395,7 +431,7 @@ _MODEL_ORDER = {m: i for i, m in enumerate(list(SINGLE) + list(CROSS) + list(ROT
 
 
 def _simplicity(c):
-    return (0 if c["conf"] == "plain" else 1, {"da": 0, "ds": 1, "list": 2}[c["container"]], _MODEL_ORDER[c["model"]])
+    return (0 if c["conf"] == "plain" else 1, {"da": 0, "da1": 0, "ds": 1, "list": 2}[c["container"]], _MODEL_ORDER[c["model"]])
 
 
 # ----------------------------------------------------------------------------- building calls
@@ -496,6 +532,7 @@ class Call:
         self.normalized = bool(case.get("normalized", False))  # part of the valid call, not a fault
         self.kfit = None
         self.m = None  # the fitted (rotated) object, once prepared
+        self.result = None  # what the entry point returned, once observed
         # CPCCARotator.transform re-indexes its result to the training sample labels (a C05 matter): with unseen labels the
         # un-mutated call returns only NaN and every fault on it would be vacuous, so this class gets new values on seen labels
         sl = model == "MCARotator"
@@ -650,6 +687,29 @@ def _reorder_new_values(x, dim):
     return x.assign_coords({dim: new})
 
 
+def _permute(x, dim, how):
+    if dim not in x.dims:
+        raise Inapplicable(dim)
+    n = x.sizes[dim]
+    if how == "reverse":
+        return x.isel({dim: list(range(n - 1, -1, -1))})
+    if how == "roll":
+        if n < 3:
+            raise Inapplicable("roll of %d labels" % n)
+        return x.isel({dim: list(range(1, n)) + [0]})
+    if how == "relabel_reverse":
+        return x.assign_coords({dim: np.asarray(x[dim].values)[::-1].copy()})
+    raise ValueError(how)
+
+
+def align_to(obj, like):
+    """The same labelled data as `obj`, laid out in the coordinate order of `like` (harness side, plain xarray label selection)."""
+    if isinstance(obj, (list, tuple)):
+        return [align_to(o, l) for o, l in zip(obj, like)]
+    sel = {d: np.asarray(like[d].values) for d in obj.dims if d != "time" and d in like.dims}
+    return obj.sel(sel)
+
+
 def mutate_data(obj, f):
     """Returns the mutated data argument for data fault / control `f` (harness side; may raise Inapplicable)."""
     import xarray as xr
@@ -669,6 +729,8 @@ def mutate_data(obj, f):
         return _map_item(obj, item, lambda x: _shift(x, f["dim"], f["how"]))
     if k == "reorder_feature_coord_new_values":
         return _map_item(obj, item, lambda x: _reorder_new_values(x, f["dim"]))
+    if k == "permute_feature_coord":
+        return _map_item(obj, item, lambda x: _permute(x, f["dim"], f["how"]))
     if k == "drop_variable":
         return obj.drop_vars(f["var"])
     if k == "rename_variable":
@@ -857,6 +919,7 @@ def _observe(call):
         try:
             res = call.run()
             d = describe(res)  # touches .values: a lazily failing result counts as a refusal
+            call.result = res
         except (CaseTimeout, MemoryError):
             raise
         except Exception as e:  # noqa: BLE001 - any exception type is a refusal (DESIGN C17, O)
@@ -935,6 +998,8 @@ def _run_case(case, seed):
         return dict(violations=[], outcome="rejected:%s" % type(obs).__name__, nontrivial=True, info=dict(exc=type(obs).__name__, at=_where(obs), baseline=base_desc))
     desc, n, nf = obs
     detail = {k: v for k, v in case.items() if k not in ("model", "container", "conf", "entry", "fault")}  # incl. solver, normalized
+    if case["fault"] == "permute_feature_coord":
+        return _judge_permutation(case, base, mut, feats, entry, detail, desc, base_desc, seed)
     v = viol(
         "fault_accepted",
         case["model"],
@@ -945,11 +1010,64 @@ def _run_case(case, seed):
     return dict(violations=[v], outcome="violation", nontrivial=False, info=dict(returned=desc, finite=nf))
 
 
+def same_result(a, b, tol=1e-9):
+    """Label-keyed equality of two entry-point results (DataArray or list of them); returns (ok, text)."""
+    import xarray as xr
+
+    if isinstance(a, (list, tuple)) or isinstance(b, (list, tuple)):
+        if not (isinstance(a, (list, tuple)) and isinstance(b, (list, tuple)) and len(a) == len(b)):
+            return False, "containers differ"
+        for i, (x, y) in enumerate(zip(a, b)):
+            ok, txt = same_result(x, y, tol)
+            if not ok:
+                return False, "item %d: %s" % (i, txt)
+        return True, ""
+    if not (isinstance(a, xr.DataArray) and isinstance(b, xr.DataArray)):
+        return False, "types %s / %s" % (type(a).__name__, type(b).__name__)
+    if set(a.dims) != set(b.dims):
+        return False, "dims %s / %s" % (list(a.dims), list(b.dims))
+    try:
+        b2 = b.sel({d: np.asarray(a[d].values) for d in a.dims}).transpose(*a.dims)
+    except Exception as e:  # noqa: BLE001 - a label of one result is missing in the other
+        return False, "labels differ (%s)" % type(e).__name__
+    va, vb = np.asarray(a.values), np.asarray(b2.values)
+    if va.shape != vb.shape:
+        return False, "shapes %s / %s" % (va.shape, vb.shape)
+    scale = max(float(np.nanmax(np.abs(va))) if va.size else 0.0, 1e-300)
+    err = D.relerr(vb, va, scale=scale)
+    return bool(err <= tol), "max |difference| / max |reference| = %.3e" % err
+
+
+def _judge_permutation(case, base, mut, feats, entry, detail, desc, base_desc, seed):
+    """A feature coordinate carrying the fitted labels in another order was ACCEPTED. The statement lists 're-ordered with
+    different values' as the fault; the same labels re-ordered are the same labelled data, so an answer is right exactly when
+    it is the answer for the label-aligned data (a relation between two runs of the real code on the same fitted object)."""
+    key = "views" if mut.kind == "multi" else ("Y" if entry == "transform_Y" else "X")
+    ref = Call(case, seed)
+    ref.m = base.m
+    ref.args[key] = align_to(mut.args[key], base.args[key])
+    what, obs = _observe(ref)
+    if what == "raised":
+        v = viol("valid_call_refused", case["model"], "the label-aligned form of the permuted data was refused: %s: %s (at %s)" % (type(obs).__name__, str(obs)[:200], _where(obs)), **feats)
+        return dict(violations=[v], outcome="violation", nontrivial=False)
+    ok, txt = same_result(ref.result, mut.result)
+    if ok:
+        return dict(violations=[], outcome="accepted_equivalent", nontrivial=True, info=dict(returned=desc, agreement=txt))
+    v = viol(
+        "reordered_coord_misread",
+        case["model"],
+        "%s with fault %s %s on a %s input was accepted and returned %s, which is NOT the answer for the same labelled data laid out in the fitted "
+        "order (%s): the values were read by position; the un-mutated call returned %s" % (entry, case["fault"], detail, case["container"], desc, txt, base_desc),
+        **feats,
+    )
+    return dict(violations=[v], outcome="violation", nontrivial=False, info=dict(returned=desc, disagreement=txt))
+
+
 # ----------------------------------------------------------------------------- cross-case summary, vacuity
 
 
 def _decided(o):
-    return o.startswith("rejected:") or o in ("violation", "accepted_valid")
+    return o.startswith("rejected:") or o in ("violation", "accepted_valid", "accepted_equivalent")
 
 
 def finalize(cases, results, tier, seed):
